@@ -317,7 +317,7 @@ func check(prop string, args []string) int {
 		}
 		seed = uint64(si)
 	}
-	cfg := tierCfg{budget: 28 * time.Second, maxRuns: 60000}
+	cfg := tierCfg{budget: 28 * time.Second, maxRuns: 400000}
 	if *tier == "thorough" {
 		cfg = tierCfg{budget: 8 * time.Minute, maxRuns: 3000000}
 	}
